@@ -32,7 +32,7 @@ Definition lag_domain_sizes (m : Z) : option (list Z) :=
    The rows (step indexes of the trace domain of size n = 2^v) on which constraint k, 1 <= k <= v, is meant to be
    enforced: the subgroup of size 2^(k-1), i.e. the multiples of n / 2^(k-1). *)
 Definition lag_rows (n k : Z) : list Z :=
-  map (fun j => j * (n / 2 ^ (k - 1))) (zrange 0 (2 ^ (k - 1))).
+  let s := n / 2 ^ (k - 1) in map (fun j => j * s) (zrange 0 (2 ^ (k - 1))).
 (* constraint k relates the row it is enforced on with the row `lag_shift n k` = 2^(v-k) further:
    frame entry v-k+1 holds c(g^(2^(v-k)) * x) *)
 Definition lag_shift (n k : Z) : Z := n / 2 ^ k.
